@@ -460,6 +460,88 @@ fn unmodelled_sync_inventory() -> Value {
     json!(hits)
 }
 
+fn builtin_function_names() -> Vec<String> {
+    // module functions via meta.module-functions; global names by scanning the
+    // sources for candidate identifiers and asking function-exists().
+    let mut names: Vec<String> = Vec::new();
+    for m in ["math", "list", "map", "string", "meta", "color", "selector"] {
+        let src = format!(
+            "@use \"sass:meta\";@use \"sass:map\";@use \"sass:{m}\" as mm;a{{b:meta.inspect(map.keys(meta.module-functions(\"mm\")))}}"
+        );
+        if let Out::Css(css) = rs::compile(src.as_bytes(), Fmt::EXPANDED) {
+            for t in vp::css::tokenize(&css) {
+                if let vp::css::Tok::Str(n) = t {
+                    names.push(format!("{m}.{n}"));
+                }
+            }
+        }
+    }
+    let mut cands: std::collections::BTreeSet<String> = std::collections::BTreeSet::new();
+    for n in &names {
+        if let Some((_, f)) = n.split_once('.') {
+            cands.insert(f.to_string());
+        }
+    }
+    // identifiers in the function sources
+    let root = vp::corpus::repo_dir().join("rsass/src/sass/functions");
+    fn walk(d: &std::path::Path, out: &mut Vec<std::path::PathBuf>) {
+        if let Ok(rd) = std::fs::read_dir(d) {
+            let mut es: Vec<_> = rd.filter_map(Result::ok).map(|e| e.path()).collect();
+            es.sort();
+            for p in es {
+                if p.is_dir() {
+                    walk(&p, out)
+                } else {
+                    out.push(p)
+                }
+            }
+        }
+    }
+    let mut files = Vec::new();
+    walk(&root, &mut files);
+    for f in files {
+        if let Ok(text) = std::fs::read_to_string(&f) {
+            let mut cur = String::new();
+            for ch in text.chars().chain(std::iter::once(' ')) {
+                if ch.is_ascii_alphanumeric() || ch == '_' || ch == '-' {
+                    cur.push(ch);
+                } else {
+                    if cur.len() >= 2 && cur.len() <= 30 && cur.chars().next().is_some_and(|c| c.is_ascii_lowercase()) {
+                        cands.insert(cur.replace('_', "-"));
+                    }
+                    cur.clear();
+                }
+            }
+        }
+    }
+    let cands: Vec<String> = cands.into_iter().collect();
+    for chunk in cands.chunks(50) {
+        let mut src = String::from("a{");
+        for (i, c) in chunk.iter().enumerate() {
+            src.push_str(&format!("p{i}:function-exists(\"{c}\");"));
+        }
+        src.push('}');
+        if let Out::Css(css) = rs::compile(src.as_bytes(), Fmt::COMPRESSED) {
+            for n in vp::css::parse(&css) {
+                if let vp::css::Node::Rule { body, .. } = n {
+                    for d in body {
+                        if let vp::css::Node::Decl { name, value } = d {
+                            if vp::css::toks_text(&value) == "true" {
+                                if let Ok(i) = name[1..].parse::<usize>() {
+                                    names.push(chunk[i].clone());
+                                }
+                            }
+                        }
+                    }
+                }
+            }
+        }
+    }
+    names.sort();
+    names.dedup();
+    names
+}
+
 fn main() {
     worker::serve_if_worker(worker_handler);
     let ck = Check::from_args("C05");
@@ -541,6 +623,56 @@ fn main() {
             }
         },
     );
+
+    // ---- repeat: every built-in function on tricky arguments, compiled several times in
+    // this process (same thread and another thread): all results must be identical.
+    // (targets per-call nondeterminism such as hash-map iteration order leaking into a result)
+    {
+        #[derive(Clone, Debug, Hash, Serialize, Deserialize)]
+        struct Rep {
+            src: String,
+        }
+        let names = builtin_function_names();
+        let vals: &[&str] = &[
+            "1px*1s", "1in*1ms", "math.div(1px,1s)", "1px*1s*1deg", "(a:1,b:2,c:3)", "(c:3,a:1,b:2)", "(a b c)", "1px", "#123",
+            "\"s\"", "null", "2", "(1px*1s 1in*1ms)",
+        ];
+        let max_ar = ck.tier.pick(2, 3);
+        let mut cases: Vec<Rep> = Vec::new();
+        for f in &names {
+            if f.contains("unique-id") || f.contains("random") {
+                continue;
+            }
+            for ar in 0..=max_ar {
+                let pool: Vec<&str> = if ar == 3 { vals.iter().copied().take(6).collect() } else { vals.to_vec() };
+                for t in vp::gen::seqs(pool.len(), ar) {
+                    let a: Vec<&str> = t.iter().map(|i| pool[*i]).collect();
+                    cases.push(Rep { src: format!("{USE_ALL}a{{b:meta.inspect({f}({}))}}", a.join(", ")) });
+                }
+            }
+        }
+        ck.run(
+            "repeat-builtins",
+            &format!("{} built-in functions x all argument tuples of arity <= {max_ar} over {} values (multi-dimension units, maps in two orders, lists): 5 compilations on this thread + 1 on another thread must agree", names.len(), vals.len()),
+            cases.into_iter(),
+            |c: &Rep| {
+                let first = rs::compile(c.src.as_bytes(), Fmt::EXPANDED);
+                for k in 0..4 {
+                    let again = rs::compile(c.src.as_bytes(), Fmt::EXPANDED);
+                    if again != first {
+                        return Verdict::fail(format!("compilation {} of the same input in the same thread differs: {} vs {}", k + 2, again.short(), first.short()));
+                    }
+                }
+                let src = c.src.clone();
+                let other = std::thread::spawn(move || rs::compile(src.as_bytes(), Fmt::EXPANDED)).join();
+                match other {
+                    Ok(o) if o == first => Verdict::pass(&first),
+                    Ok(o) => Verdict::fail(format!("another thread gives {} but this thread {}", o.short(), first.short())),
+                    Err(_) => Verdict::fail("thread panicked"),
+                }
+            },
+        );
+    }
 
     // ---- schedules
     if !ck.is_replay() {
